@@ -469,6 +469,7 @@ func (a *oauth2IntrospectionAuthenticator) getCacheTTL(introspectResp *oauth2.In
 func (a *oauth2IntrospectionAuthenticator) calculateCacheKey(ep *endpoint.Endpoint, templatedURL, token string) string {
 	digest := sha256.New()
 	hashx.WriteBytes(digest, ep.Hash())
+	hashx.WriteString(digest, a.id)
 	hashx.WriteString(digest, templatedURL)
 	hashx.WriteString(digest, token)
 
